@@ -48,7 +48,7 @@ func (o rOutcome) String() string {
 
 const rNF = echo.RouteNotFound
 
-var rSegs = []string{"a", "b", "ab", "ba", "abc", "users", "us", ":x", ":y", ":id", "a:x", "u:n", "*", "", "a*", "v1"}
+var rSegs = []string{"a", "b", "ab", "ba", "abc", "users", "us", ":x", ":y", ":id", "a:x", "u:n", "*", "", "a*", "v1", "caf\u00e9", "cafe", "caf\u00e8"} // (the last ones: multi-byte UTF-8 in literal text, sharing a byte prefix)
 var rMethods = []string{"GET", "POST", "GET", "GET", rNF, "PURGE", "PUT", "LOCK"}
 
 // all eleven built-in methods, the not-found pseudo method and custom names (C03)
@@ -161,6 +161,14 @@ func rGenTable(rng *rand.Rand, max int) []rRoute {
 		}
 		rng.Shuffle(len(rs), func(i, j int) { rs[i], rs[j] = rs[j], rs[i] })
 		return rs
+	}
+	if max >= 5 && rng.Intn(150) == 0 {
+		// one route with more than 255 parameters in front of a wildcard (counters and indices wider than a byte)
+		p := ""
+		for i, n := 0, 250+rng.Intn(15); i < n; i++ {
+			p += fmt.Sprintf("/:p%d", i)
+		}
+		return []rRoute{{"GET", p + "/*"}, {"GET", "/a/:x"}}
 	}
 	if max >= 5 && rng.Intn(3) == 0 {
 		return rGenTemplate(rng)
@@ -407,7 +415,7 @@ func rMatch(pattern, path string) bool {
 }
 
 func rGenPaths(rng *rand.Rand, rs []rRoute, k int) []string {
-	vals := []string{"1", "x", "ab", "a", "users", "", "a.b", "v1", "b"}
+	vals := []string{"1", "x", "ab", "a", "users", "", "a.b", "v1", "b", "a|b", "caf\u00e9", "{x}"} // (|, { and raw non-ASCII: bytes net/url would escape by itself)
 	var out []string
 	for len(out) < k {
 		r := rs[rng.Intn(len(rs))]
